@@ -54,6 +54,30 @@ fn two_d(rng: &mut Rng) {
     p2.set(&parry2d_f64::na::Vector3::new(x.x + d.x, x.y + d.y, x.z));
     let q = Point2::new(rng.range(-9.0, 9.0), rng.range(-9.0, 9.0));
     v.require(((p2.transform() * q) - (p1.transform() * q) - d).norm() <= tol, "rc2.pure_translation", || "".into());
+    v.require((p2.current_rc() - p2.transform() * rc).norm() <= tol, "rc2.current_rc_consistent_after_translation_only_update", || "".into());
+    v.require(mat_diff2(&(p2.inverse() * p2.transform()), &Iso2::identity()) <= tol, "rc2.inverse_consistent_after_translation_only_update", || "".into());
+    {
+        let mut ph = p1.clone();
+        let mut xl = x;
+        let mut kinds = Vec::new();
+        for _ in 0..rng.int(1, 4) {
+            let kind = rng.below(4);
+            kinds.push(kind);
+            for k in 0..3 {
+                let change = match kind { 0 => k < 2, 1 => k >= 2, 2 => true, _ => false };
+                if change {
+                    xl[k] += rng.range(-1.0, 1.0);
+                }
+            }
+            ph.set(&xl);
+        }
+        let mut fresh = RcParams2::from_initial(&initial, &rc);
+        fresh.set(&xl);
+        let why = || format!("update kinds {kinds:?} (0 = translation only, 1 = angle only, 2 = all, 3 = none)");
+        v.require(mat_diff2(ph.transform(), fresh.transform()) <= tol, "rc2.update_sequence_ends_in_the_state_of_its_last_update.transform", why);
+        v.require(mat_diff2(ph.inverse(), fresh.inverse()) <= tol, "rc2.update_sequence_ends_in_the_state_of_its_last_update.inverse", why);
+        v.require((ph.current_rc() - fresh.current_rc()).norm() <= tol, "rc2.update_sequence_ends_in_the_state_of_its_last_update.current_rc", why);
+    }
     let mut i = Tok::new();
     iso2_tok(&mut i, &initial);
     i.f(rc.x).f(rc.y).f(x.x).f(x.y).f(x.z);
@@ -167,6 +191,37 @@ fn three_d(rng: &mut Rng) {
     p2.set(&x2);
     let q = Point3::new(rng.range(-9.0, 9.0), rng.range(-9.0, 9.0), rng.range(-9.0, 9.0));
     v.require(((p2.transform() * q) - (p1.transform() * q) - d).norm() <= tol, "rc3.pure_translation", || "".into());
+    v.require((p2.current_rc() - p2.transform() * rc).norm() <= tol, "rc3.current_rc_consistent_after_translation_only_update", || format!("{:?} vs {:?}", p2.current_rc(), p2.transform() * rc));
+    v.require(mat_diff(&(p2.inverse() * p2.transform()), &Iso3::identity()) <= tol, "rc3.inverse_consistent_after_translation_only_update", || "".into());
+    // the state after ANY sequence of updates (translations only, angles only, everything, nothing)
+    // is the state a single update with the last parameters gives: transform, inverse, moved centre
+    // and the derivative data the Jacobians read
+    {
+        let mut ph = p1.clone();
+        let mut xl = x;
+        let mut kinds = Vec::new();
+        for _ in 0..rng.int(1, 4) {
+            let kind = rng.below(4);
+            kinds.push(kind);
+            for k in 0..6 {
+                let change = match kind { 0 => k < 3, 1 => k >= 3, 2 => true, _ => false };
+                if change {
+                    xl[k] += rng.range(-1.0, 1.0);
+                }
+            }
+            ph.set(&xl);
+        }
+        let mut fresh = RcParams3::from_initial(&initial, &rc);
+        fresh.set(&xl);
+        let why = || format!("update kinds {kinds:?} (0 = translation only, 1 = angles only, 2 = all, 3 = none)");
+        v.require(mat_diff(ph.transform(), fresh.transform()) <= tol, "rc3.update_sequence_ends_in_the_state_of_its_last_update.transform", why);
+        v.require(mat_diff(ph.inverse(), fresh.inverse()) <= tol, "rc3.update_sequence_ends_in_the_state_of_its_last_update.inverse", why);
+        v.require((ph.current_rc() - fresh.current_rc()).norm() <= tol, "rc3.update_sequence_ends_in_the_state_of_its_last_update.current_rc", why);
+        let tp = Point3::new(rng.range(-9.0, 9.0), rng.range(-9.0, 9.0), rng.range(-9.0, 9.0));
+        let tq = Point3::new(rng.range(-9.0, 9.0), rng.range(-9.0, 9.0), rng.range(-9.0, 9.0));
+        let (ja, jb) = (point_point_jacobian(&tp, &tq, &ph), point_point_jacobian(&tp, &tq, &fresh));
+        v.require((0..6).all(|k| (ja[k] - jb[k]).abs() <= 1e-8 * (1.0 + cs + jb[k].abs())), "rc3.update_sequence_ends_in_the_state_of_its_last_update.jacobian", why);
+    }
     // iso3 <-> param
     let prm = param_from_iso3(&initial);
     v.require(mat_diff(&iso3_from_param(&prm), &initial) <= tol, "iso3.param_roundtrip", || format!("pitch={ry:e}"));
